@@ -896,10 +896,36 @@ func execCase(sp *spec, abort chan struct{}, verbose bool) vrun.Result {
 	for mi, m := range e.members {
 		m.q <- []byte(fmt.Sprintf("S:%d", mi))
 	}
-	if !spin(func() bool { e.rmu.Lock(); defer e.rmu.Unlock(); return e.sentinels >= n || len(e.readErrs) > 0 }, 20*time.Second) {
-		closeMT()
-		cwait(&cg, 10*time.Second)
-		return vrun.Inconcl("the last message fed to every member was not returned by Read within the watchdog")
+	barrier := func() bool { e.rmu.Lock(); defer e.rmu.Unlock(); return e.sentinels >= n || len(e.readErrs) > 0 }
+	if !spin(barrier, 200*time.Millisecond) {
+		// Not there yet. Time decides nothing; a goroutine dump may: when every reader goroutine of the library is back in
+		// its member's Read and every Read caller is blocked on the (then empty) merge queue, nothing is in flight, and a
+		// message a member handed out that no Read returned is lost.
+		reached := false
+		for try := 0; try < 90 && !reached; try++ {
+			if e.aborted() {
+				return vrun.Inconcl("aborted at the read barrier")
+			}
+			if idle, detail := e.readPathIdle(); idle {
+				if missing := e.missingReads(); len(missing) > 0 {
+					closeMT()
+					cwait(&cg, 10*time.Second)
+					return vrun.Violation("a message read from a member was never returned by Read: every reader goroutine is back in its member's Read and every Read caller is blocked on the merge queue",
+						"read-lost", map[string]any{"spec": sp, "missing": missing, "goroutines": detail})
+				}
+			}
+			if try < 20 {
+				time.Sleep(15 * time.Millisecond)
+			} else {
+				time.Sleep(100 * time.Millisecond)
+			}
+			reached = barrier()
+		}
+		if !reached {
+			closeMT()
+			cwait(&cg, 10*time.Second)
+			return vrun.Inconcl("the last message fed to every member was not returned by Read within the watchdog and the goroutine dumps were not decisive")
+		}
 	}
 	e.rmu.Lock()
 	early := append([]string(nil), e.readErrs...)
@@ -934,6 +960,65 @@ func execCase(sp *spec, abort chan struct{}, verbose bool) vrun.Result {
 	}
 
 	return e.judge(initState, sumTx, sumRx, gotTx, gotRx, cerr)
+}
+
+// readPathIdle inspects a goroutine dump for this case's goroutines only (they are identified by the addresses of the
+// case's member transports and of its multi transport in the frame arguments).
+func (e *env) readPathIdle() (bool, string) {
+	gs := vrun.ParseStacks(vrun.AllStacks())
+	mtArg := fmt.Sprintf("multi.(*Transport).Read(%p", e.mt)
+	consumers := 0
+	readers := map[string]int{}
+	for _, g := range gs {
+		st := goroutineState(g.Header)
+		if strings.Contains(g.Text, mtArg) {
+			if st != "select" {
+				return false, "a Read caller is " + st
+			}
+			consumers++
+			continue
+		}
+		if !g.LibraryOwned() {
+			continue
+		}
+		for _, m := range e.members {
+			if strings.Contains(g.Text, fmt.Sprintf("c19.(*member).Read(%p", m)) {
+				if st != "select" {
+					return false, "reader of " + string(m.id) + " is " + st
+				}
+				readers[string(m.id)]++
+			}
+		}
+	}
+	if consumers != e.sp.Consumers {
+		return false, fmt.Sprintf("%d of %d Read callers found blocked in Read", consumers, e.sp.Consumers)
+	}
+	for _, m := range e.members {
+		if readers[string(m.id)] != 1 {
+			return false, "reader goroutine of " + string(m.id) + " is not waiting in its member's Read"
+		}
+	}
+	return true, fmt.Sprintf("%d reader goroutines waiting in their member's Read, %d Read callers blocked in select on the merge queue", len(readers), consumers)
+}
+
+// missingReads lists messages members handed to the library that no Read call returned so far.
+func (e *env) missingReads() []string {
+	e.rmu.Lock()
+	got := map[string]bool{}
+	for _, r := range e.reads {
+		got[r.Msg] = true
+	}
+	e.rmu.Unlock()
+	var missing []string
+	for _, m := range e.members {
+		_, handed, _, _ := m.snapshot()
+		for _, h := range handed {
+			if !got[h] {
+				missing = append(missing, string(m.id)+":"+h)
+			}
+		}
+	}
+	return missing
 }
 
 func cwait(g *sync.WaitGroup, d time.Duration) bool {
